@@ -17,6 +17,7 @@ import time
 from fractions import Fraction
 
 from harness import common as C
+from harness import history as H
 from harness import impl
 
 PID = "C20"
@@ -421,6 +422,8 @@ def close(x, iv, rtol=RTOL, floor=1.0):
         return False
     lo, hi = iv
     tol = Fraction(rtol) * max(Fraction(floor), abs(lo), abs(hi)) + Fraction(1, 10 ** 300)
+    if not math.isfinite(x):
+        return False
     return lo - tol <= Fraction(x) <= hi + tol
 
 
@@ -717,6 +720,38 @@ def run(tier, seed, replay=None):
             else:
                 rep.violation(key, what, dict(case=c, row=r, broken="correspondence M_gmrf / M_suffstat vs implementation"),
                               False)
+    # ---- same-object histories: GMRF() and the PUBLISHED matrix after assignments == fresh object
+    t0h = time.time()
+    hrng = random.Random(seed + 17)
+    nh, hist_found = 0, {}
+    gm = [c for c in cases if c.get("kind") == "gmrf"]
+    hrng.shuffle(gm)
+    for c in gm[:(60 if tier == "quick" else 400)]:
+        try:
+            impl.load()
+            from torchtree.distributions.gmrf import GMRF
+            B = c["B"]
+            tau = [[t] for t in c["tau"]] if B is not None else [c["tau"][0]]
+            d = _variant_json(c, {"id": "gmrf", "type": "GMRF", "x": _field_json(c),
+                                  "precision": impl.param_json("precision", tau)})
+            if isinstance(d.get("tree_model"), dict):      # json_factory leaves the heights anonymous
+                d["tree_model"]["internal_heights"]["id"] = "tree.heights"
+            g = H.tracked(GMRF, d)
+        except Exception:
+            continue
+        obs = lambda o: [o().detach().tolist(), o.precision_matrix().detach().tolist()]
+        reads = [("precision_matrix", lambda o: o.precision_matrix()), ("call", lambda o: o()),
+                 ("node_heights", lambda o: o.tree_model.node_heights if o.tree_model is not None else None)]
+        fs = H.run(g, obs, hrng, steps=2, reads=reads)
+        nh += 1
+        for f in fs:
+            k = f"C20:history:GMRF:{c['variant']}"
+            hist_found.setdefault(k, (k, f"after the history {f['history']} GMRF() / precision_matrix() of the same object "
+                                         f"differ from a freshly built one: {f['on_same_object']} vs {f['fresh_object']}",
+                                      dict(case=c, history=f)))
+    for f in hist_found.values():
+        rep.violation(*f)
+    rep.timings["histories"] = round(time.time() - t0h, 2)
     rep.rule = ("random cases over GMRF (plain / weights / time-aware with and without rescale), GMRFGammaIntegrated "
                 "(same variants; shape, rate from 1e-3 to 20), ConstantCoalescentIntegratedModel, "
                 "PiecewiseConstantCoalescent(Grid).sufficient_statistics: field length / taxa 2..12 (every fourth case "
